@@ -62,9 +62,14 @@ pub struct Token { pub kind: TokenKind }
 // one row of the table, as seen by the extracted code
 pub struct ParseRule { pub prefix: Option<ParseFnName>, pub infix: Option<ParseFnName>, pub precedence: Precedence }
 
-//@struct file=yarel/src/compiler.rs name=Parser keepfields=current,previous,single_target_mode map "Parser<'a>" => "Parser" addfield "pub code: Vec<u8>" addfield "pub ghost tokens_left: nat" addfield "pub ghost parsed_at: Seq<Precedence>" addfield "pub ghost bound: Seq<TokenKind>" addfield "pub ghost had_error: bool"
+//@struct file=yarel/src/compiler.rs name=Parser keepfields=current,previous,single_target_mode map "Parser<'a>" => "Parser" addfield "pub code: Vec<u8>" addfield "pub ghost tokens_left: nat" addfield "pub ghost parsed_at: Seq<Precedence>" addfield "pub ghost bound: Seq<TokenKind>" addfield "pub ghost had_error: bool" addfield "pub ghost ended_code: Map<int, int>" addfield "pub ghost ended_tokens: Map<int, nat>"
 
 pub open spec fn prefix_of<T>(a: Seq<T>, b: Seq<T>) -> bool { a.len() <= b.len() && forall|j: int| 0 <= j < a.len() ==> #[trigger] b[j] == a[j] }
+// `ended_code[n]` / `ended_tokens[n]`: code length and tokens left when the parse_precedence call logged at parsed_at[n] returned
+pub open spec fn ends_kept(n: int, a: Map<int, int>, at: Map<int, nat>, b: Map<int, int>, bt: Map<int, nat>) -> bool {
+    &&& (forall|k: int| 0 <= k < n && #[trigger] a.dom().contains(k) ==> b.dom().contains(k) && b[k] == a[k])
+    &&& (forall|k: int| 0 <= k < n && #[trigger] at.dom().contains(k) ==> bt.dom().contains(k) && bt[k] == at[k])
+}
 pub open spec fn next_level(p: Precedence) -> int { prec_index(p) as int + 1 }
 
 impl Parser {
@@ -89,29 +94,29 @@ impl Parser {
         requires old(self).stream_ok()
         ensures final(self).stream_ok(), final(self).previous.kind == old(self).current.kind,
             final(self).tokens_left == (if old(self).tokens_left > 0 { (old(self).tokens_left - 1) as nat } else { 0 }),
-            final(self).code == old(self).code, final(self).parsed_at == old(self).parsed_at, final(self).bound == old(self).bound,
+            final(self).code == old(self).code, final(self).parsed_at == old(self).parsed_at, final(self).ended_code == old(self).ended_code, final(self).ended_tokens == old(self).ended_tokens, final(self).bound == old(self).bound,
             final(self).single_target_mode == old(self).single_target_mode, old(self).had_error ==> final(self).had_error,
     { unimplemented!() }
     #[verifier::external_body]
     fn match_token(&mut self, kind: TokenKind) -> (r: bool)
         requires old(self).stream_ok()
-        ensures final(self).stream_ok(), old(self).extends(final(self)), final(self).code == old(self).code, final(self).parsed_at == old(self).parsed_at, final(self).bound == old(self).bound,
+        ensures final(self).stream_ok(), old(self).extends(final(self)), final(self).code == old(self).code, final(self).parsed_at == old(self).parsed_at, final(self).ended_code == old(self).ended_code, final(self).ended_tokens == old(self).ended_tokens, final(self).bound == old(self).bound,
             final(self).single_target_mode == old(self).single_target_mode, !r ==> final(self).current == old(self).current,
     { unimplemented!() }
     #[verifier::external_body]
     fn error(&mut self, message: &str)
         ensures final(self).had_error, final(self).code == old(self).code, final(self).tokens_left == old(self).tokens_left, final(self).current == old(self).current,
-            final(self).previous == old(self).previous, final(self).parsed_at == old(self).parsed_at, final(self).bound == old(self).bound, final(self).single_target_mode == old(self).single_target_mode,
+            final(self).previous == old(self).previous, final(self).parsed_at == old(self).parsed_at, final(self).ended_code == old(self).ended_code, final(self).ended_tokens == old(self).ended_tokens, final(self).bound == old(self).bound, final(self).single_target_mode == old(self).single_target_mode,
     { unimplemented!() }
     #[verifier::external_body]
     fn emit_byte(&mut self, byte: u8)
         ensures final(self).code@ == old(self).code@.push(byte), final(self).tokens_left == old(self).tokens_left, final(self).current == old(self).current, final(self).previous == old(self).previous,
-            final(self).parsed_at == old(self).parsed_at, final(self).bound == old(self).bound, final(self).had_error == old(self).had_error, final(self).single_target_mode == old(self).single_target_mode,
+            final(self).parsed_at == old(self).parsed_at, final(self).ended_code == old(self).ended_code, final(self).ended_tokens == old(self).ended_tokens, final(self).bound == old(self).bound, final(self).had_error == old(self).had_error, final(self).single_target_mode == old(self).single_target_mode,
     { unimplemented!() }
     #[verifier::external_body]
     fn emit_bytes(&mut self, bytes: [u8; 2])
         ensures final(self).code@ == old(self).code@.push(bytes[0]).push(bytes[1]), final(self).tokens_left == old(self).tokens_left, final(self).current == old(self).current, final(self).previous == old(self).previous,
-            final(self).parsed_at == old(self).parsed_at, final(self).bound == old(self).bound, final(self).had_error == old(self).had_error, final(self).single_target_mode == old(self).single_target_mode,
+            final(self).parsed_at == old(self).parsed_at, final(self).ended_code == old(self).ended_code, final(self).ended_tokens == old(self).ended_tokens, final(self).bound == old(self).bound, final(self).had_error == old(self).had_error, final(self).single_target_mode == old(self).single_target_mode,
     { unimplemented!() }
 
     // `&RULES[kind as usize]`: by the generated table (in range: rules_table_has_one_row_per_token_kind)
@@ -126,12 +131,14 @@ impl Parser {
         requires old(self).stream_ok()
         ensures final(self).stream_ok(), old(self).extends(final(self)), final(self).bound == old(self).bound, final(self).single_target_mode == old(self).single_target_mode,
             prefix_of(old(self).parsed_at, final(self).parsed_at),
+            ends_kept(old(self).parsed_at.len() as int, old(self).ended_code, old(self).ended_tokens, final(self).ended_code, final(self).ended_tokens),
     { unimplemented!() }
     #[verifier::external_body]
     fn call_infix(&mut self, handler: Option<ParseFnName>, can_assign: bool)
         requires old(self).stream_ok(), handler is Some
         ensures final(self).stream_ok(), old(self).extends(final(self)), final(self).bound == old(self).bound.push(old(self).previous.kind), final(self).single_target_mode == old(self).single_target_mode,
             prefix_of(old(self).parsed_at, final(self).parsed_at),
+            ends_kept(old(self).parsed_at.len() as int, old(self).ended_code, old(self).ended_tokens, final(self).ended_code, final(self).ended_tokens),
     { unimplemented!() }
 
     // The operator loop: an infix operator is bound by THIS call only if its table level is at least the requested
@@ -144,16 +151,21 @@ impl Parser {
     //@  subst "Some(ref handler) => handler(self, can_assign)," => "Some(ref handler) => self.call_prefix(handler, can_assign),"
     //@  subst "infix_rule.unwrap()(self, can_assign);" => "self.call_infix(infix_rule, can_assign);"
     //@  requires old(self).stream_ok(), prec_index(precedence) >= prec_index(Precedence::Assignment)
-    //@  at body.start let ghost b0 = self.bound.len(); proof { self.parsed_at = self.parsed_at.push(precedence); }
+    //@  at body.start let ghost b0 = self.bound.len(); let ghost n0 = self.parsed_at.len() as int; proof { self.parsed_at = self.parsed_at.push(precedence); }
+    //@  before_stmt "return;" proof { self.ended_code = self.ended_code.insert(n0, self.code@.len() as int); self.ended_tokens = self.ended_tokens.insert(n0, self.tokens_left); }
+    //@  at body.end proof { self.ended_code = self.ended_code.insert(n0, self.code@.len() as int); self.ended_tokens = self.ended_tokens.insert(n0, self.tokens_left); }
     //@  loop 0 invariant self.stream_ok(), old(self).extends(self), self.bound.len() >= b0, self.bound.subrange(0, b0 as int) == old(self).bound, self.single_target_mode == old(self).single_target_mode
     //@  loop 0 invariant forall|i: int| b0 <= i < self.bound.len() ==> prec_index(rule_precedence(#[trigger] self.bound[i])) >= prec_index(precedence)
-    //@  loop 0 invariant prec_index(precedence) >= prec_index(Precedence::Assignment)
+    //@  loop 0 invariant prec_index(precedence) >= prec_index(Precedence::Assignment), n0 == old(self).parsed_at.len()
+    //@  loop 0 invariant ends_kept(n0, old(self).ended_code, old(self).ended_tokens, self.ended_code, self.ended_tokens)
     //@  loop 0 invariant self.parsed_at.len() > old(self).parsed_at.len(), prefix_of(old(self).parsed_at, self.parsed_at), self.parsed_at[old(self).parsed_at.len() as int] == precedence
     //@  loop 0 decreases self.tokens_left
     //@  at loop0.start let ghost s0 = *self; proof { every_binding_token_has_an_infix_handler(self.current.kind); end_of_input_binds_nothing(); }
     //@  at loop0.end proof { let ghost s1 = *self; Parser::lemma_extends_trans(old(self), &s0, &s1); }
     //@  ensures final(self).stream_ok(), old(self).extends(final(self)), final(self).single_target_mode == old(self).single_target_mode
     //@  ensures final(self).parsed_at.len() > old(self).parsed_at.len(), prefix_of(old(self).parsed_at, final(self).parsed_at), final(self).parsed_at[old(self).parsed_at.len() as int] == precedence
+    //@  ensures ends_kept(old(self).parsed_at.len() as int, old(self).ended_code, old(self).ended_tokens, final(self).ended_code, final(self).ended_tokens)
+    //@  ensures ({ let n = old(self).parsed_at.len() as int; final(self).ended_code.dom().contains(n) && final(self).ended_code[n] == final(self).code@.len() && final(self).ended_tokens.dom().contains(n) && final(self).ended_tokens[n] == final(self).tokens_left })
     //@  ensures @only_operators_at_or_above_the_requested_level_are_bound final(self).bound.len() >= old(self).bound.len() && final(self).bound.subrange(0, old(self).bound.len() as int) == old(self).bound && forall|i: int| old(self).bound.len() <= i < final(self).bound.len() ==> prec_index(rule_precedence(#[trigger] final(self).bound[i])) >= prec_index(precedence)
     //@  ensures @stops_at_the_first_weaker_operator final(self).had_error || prec_index(rule_precedence(final(self).current.kind)) < prec_index(precedence)
     //@end
@@ -174,21 +186,20 @@ impl Parser {
     //@  subst "rule_precedence as usize" => "prec_usize(rule_precedence)"
     //@  requires old(s).stream_ok(), rule_infix(old(s).previous.kind) == Some(ParseFnName::binary)
     //@  at body.start proof { binary_operators_have_a_next_level(s.previous.kind); }
-    //@  after_stmt "s.parse_precedence(" let ghost mid = *s;
     //@  ensures final(s).stream_ok(), old(s).extends(final(s))
     //@  ensures @right_operand_binds_one_level_tighter_than_the_operator final(s).parsed_at.len() > old(s).parsed_at.len() && prec_index(final(s).parsed_at[old(s).parsed_at.len() as int]) == prec_index(rule_precedence(old(s).previous.kind)) + 1
-    //@  assert @operator_code_follows_both_operands at body.end mid.extends(s) && s.tokens_left == mid.tokens_left && s.parsed_at == mid.parsed_at && s.bound == mid.bound
-    //@  assert @every_operator_routed_to_binary_emits_an_instruction at body.end s.code@.len() > mid.code@.len()
+    //@  ensures @operator_code_follows_both_operands ({ let n = old(s).parsed_at.len() as int; final(s).ended_code.dom().contains(n) && final(s).ended_tokens.dom().contains(n) && final(s).tokens_left == final(s).ended_tokens[n] && final(s).code@.len() <= final(s).ended_code[n] + 2 })
+    //@  ensures @every_operator_routed_to_binary_emits_an_instruction ({ let n = old(s).parsed_at.len() as int; final(s).ended_code.dom().contains(n) && final(s).code@.len() > final(s).ended_code[n] })
     //@end
 
     // op A: the operand is parsed at the Unary level (so `-a.b` negates `a.b`, `-a * b` is `(-a) * b`), operator last
     //@fn file=yarel/src/compiler.rs path=Parser::unary
     //@  rewrite R21
     //@  requires old(s).stream_ok(), rule_prefix(old(s).previous.kind) == Some(ParseFnName::unary)
-    //@  after_stmt "s.parse_precedence(" let ghost mid = *s;
     //@  ensures final(s).stream_ok(), old(s).extends(final(s))
     //@  ensures @operand_binds_at_the_unary_level final(s).parsed_at.len() > old(s).parsed_at.len() && final(s).parsed_at[old(s).parsed_at.len() as int] == Precedence::Unary
-    //@  assert @operator_code_follows_the_operand at body.end mid.extends(s) && s.tokens_left == mid.tokens_left && s.parsed_at == mid.parsed_at && s.code@.len() == mid.code@.len() + 1
+    //@  ensures @the_operand_starts_right_behind_the_operator ({ let n = old(s).parsed_at.len() as int; final(s).ended_tokens.dom().contains(n) && final(s).ended_tokens[n] <= old(s).tokens_left }) && old(s).code@.len() <= final(s).code@.len()
+    //@  ensures @operator_instruction_follows_the_operand ({ let n = old(s).parsed_at.len() as int; final(s).ended_code.dom().contains(n) && final(s).ended_tokens.dom().contains(n) && final(s).tokens_left == final(s).ended_tokens[n] && final(s).code@.len() == final(s).ended_code[n] + 1 })
     //@end
 
     // A .. B: the right bound is parsed at the Unary level (`1..n+1` is `(1..n)+1`), BuildRange last
@@ -197,7 +208,7 @@ impl Parser {
     //@  requires old(s).stream_ok()
     //@  ensures final(s).stream_ok(), old(s).extends(final(s))
     //@  ensures @right_bound_binds_at_the_unary_level final(s).parsed_at.len() > old(s).parsed_at.len() && final(s).parsed_at[old(s).parsed_at.len() as int] == Precedence::Unary
-    //@  ensures final(s).code@.len() > 0 && final(s).code@[final(s).code@.len() - 1] == opcode_byte(OpCode::BuildRange)
+    //@  ensures @build_range_follows_both_bounds ({ let n = old(s).parsed_at.len() as int; final(s).ended_code.dom().contains(n) && final(s).ended_tokens.dom().contains(n) && final(s).tokens_left == final(s).ended_tokens[n] && final(s).code@.len() == final(s).ended_code[n] + 1 && final(s).code@[final(s).ended_code[n]] == opcode_byte(OpCode::BuildRange) })
     //@end
 }
 
